@@ -91,8 +91,8 @@ type Case struct {
 	// Combos are the (command, entry state) pairs the case is evaluated under; empty = all twelve.
 	Combos []Combo `json:"combos,omitempty"`
 	// Bin, when set, makes this a case of the real-binary layer (bin_test.go); the other fields except HCL are unused.
-	Bin *BinCase `json:"bin,omitempty"`
-	Class  string  `json:"class,omitempty"`
+	Bin   *BinCase `json:"bin,omitempty"`
+	Class string   `json:"class,omitempty"`
 }
 
 // ---------------------------------------------------------------------------
